@@ -241,7 +241,33 @@ func treeCase(r *sim.R, k int) {
 				}
 			}
 		})
-		if len(leaves) > 0 {
+		// dictionaries below the root: a dotted key may run through "their first list position"
+		var dicts [][]string
+		a.Walk(func(x *model.Node, segs []model.Seg) {
+			if x.K == model.KSub && len(x.D) > 0 && len(x.A) == 0 && len(segs) >= 1 {
+				p := make([]string, len(segs))
+				for i, s := range segs {
+					if s.IsIdx {
+						return
+					}
+					p[i] = s.String()
+				}
+				dicts = append(dicts, p)
+			}
+		})
+		if len(dicts) > 0 && t.Chance(1, 4, "overlap-through-index-of-dict") {
+			// an object under a key next to a dotted key that goes through index 0 of the same key:
+			// the object has no list part, so the dotted key starts one - in whichever order
+			p := dicts[t.Choose(len(dicts), "overlap-dict")]
+			in = world.Render(a, world.RepGeneric, nil).(map[string]interface{})
+			if t.Bool("through-index-primitive") {
+				in[strings.Join(p, ".")+".0"] = uint64(5)
+			} else {
+				in[strings.Join(p, ".")+".0.zz"] = "thru"
+			}
+			r.Fault("input holds an object next to a dotted key through its index 0")
+			detail["overlap"] = "true"
+		} else if len(leaves) > 0 {
 			p := leaves[t.Choose(len(leaves), "overlap-leaf")]
 			in = world.Render(a, world.RepGeneric, nil).(map[string]interface{})
 			switch t.Choose(4, "overlap-kind") {
@@ -314,6 +340,23 @@ func treeCase(r *sim.R, k int) {
 		}
 		r.Tracef("dst := NewFrom(%s); dst.Merge(%s) field options %v", describe(in), describe(src), fdesc)
 		if detail["overlap"] == "true" {
+			// the overlapping input is merged into an existing empty config: what the receiver holds
+			// afterwards - also after a rejected merge - is part of the outcome
+			r.Probe("order: overlapping input merged into an existing empty config")
+			schedules(r, k, "Merge", detail, true, func() Outcome {
+				dst := ucfg.New()
+				err := dst.Merge(in, opts...)
+				save := r.Order
+				r.Order = sim.OrderSorted
+				o := unpackOutcome(dst, opts)
+				r.Order = save
+				if err != nil {
+					// (data is compared through the kind: a rejected merge has no other result)
+					o.Kind = ErrKind(err) + " / receiver afterwards: " + o.Kind + " " + o.Data
+				}
+				return o
+			})
+			r.StateOps += 2
 			return
 		}
 		schedules(r, k, "Merge", detail, true, func() Outcome {
